@@ -41,6 +41,20 @@ def worker(prop, tier, seed, widx, nworkers, out, replay=None):
     from .desc import enc, dec, show
     mod = _mod(prop)
     M.install(trace=True, lines=True)
+    debug_logging = nworkers > 1 and widx == nworkers - 1 and replay is None
+    if debug_logging or os.environ.get("G3DV_DEBUG_LOGGING"):
+        # configuration dimension: the last worker runs the library at its own DEBUG log level (records are
+        # produced and formatted, then dropped): behaviour must not depend on the log level
+        import logging
+        from .lib import load as _load
+        _G = _load()
+        logging.disable(logging.NOTSET)
+        _G.set_log_level("DEBUG")
+        root = logging.getLogger()
+        for h_ in list(root.handlers):
+            root.removeHandler(h_)
+        root.addHandler(logging.NullHandler())
+        root.setLevel(logging.DEBUG)
     if hasattr(mod, "setup"):
         mod.setup()
     scale = float(os.environ.get("VERIF_BUDGET", "1"))
@@ -130,7 +144,7 @@ def worker(prop, tier, seed, widx, nworkers, out, replay=None):
     with open(hp, "wb") as f:
         hashes.tofile(f)
     rep = {
-        "widx": widx, "hashseed": os.environ.get("PYTHONHASHSEED"), "cases": n, "stopped": stopped,
+        "widx": widx, "hashseed": os.environ.get("PYTHONHASHSEED"), "cases": n, "stopped": stopped, "debug_logging": bool(debug_logging),
         "status": dict(status), "cells": dict(cells), "flagged_cells": dict(flagged_cells), "why": dict(why),
         "violations": viols, "viol_keys": dict(viol_keys), "samples": samples, "errors": errors,
         "funcs": sorted(M.ST.funcs), "nlines": len(M.ST.lines),
@@ -237,6 +251,7 @@ def run(prop, tier, seed, nworkers=None, keep=False):
         stopped[r["stopped"]] += 1
         for v in r["violations"]:
             v["hashseed"] = r["hashseed"]
+            v["debug_logging"] = r.get("debug_logging", False)
             viols.append(v)
         samples.extend(r["samples"][:2])
         errors.extend(r["errors"])
@@ -297,7 +312,7 @@ def run(prop, tier, seed, nworkers=None, keep=False):
         path = os.path.join("replay", "%s-%d.json" % (prop, nrep))
         with open(os.path.join(OUT, path), "w") as f:
             json.dump({"property": prop, "key": v["key"], "what": v["what"], "detail": v.get("detail"), "case": v["case"],
-                       "hashseed": v["hashseed"], "tier": tier, "seed": seed, "repo": rs}, f, indent=1)
+                       "hashseed": v["hashseed"], "debug_logging": v.get("debug_logging", False), "tier": tier, "seed": seed, "repo": rs}, f, indent=1)
         lines.append("VIOLATION property=%s replay=%s key=%s count=%d :: %s" % (prop, os.path.join(OUT, path), v["key"], viol_keys[v["key"]], v["what"]))
     for k in unknown_keys:
         if k not in seen_keys:   # witness list was capped; still must be reported
@@ -333,6 +348,7 @@ def run(prop, tier, seed, nworkers=None, keep=False):
             "known_findings_hit": sorted(known_hit),
             "workers": len(reports), "workers_lost": len(dead), "worker_stop_reasons": dict(stopped),
             "hash_seeds": [hashseed_for(seed, i) for i in range(nworkers)],
+            "workers_run_at_library_log_level_DEBUG": sum(1 for r in reports if r.get("debug_logging")),
             "repo": rs,
             "property_specific": _merge_extras(extras),
             "inconclusive_reasons": reasons,
@@ -394,6 +410,8 @@ def replay(prop, path):
         rp = json.load(f)
     prop = rp.get("property", prop)
     hs = rp.get("hashseed")
+    if rp.get("debug_logging"):
+        os.environ["G3DV_DEBUG_LOGGING"] = "1"
     if hs is not None and os.environ.get("PYTHONHASHSEED") != str(hs):
         env = dict(os.environ)
         env["PYTHONHASHSEED"] = str(hs)
